@@ -134,3 +134,69 @@ package frontend
 //@   requires ctx != nil
 //@   nosafety
 //@   ensures errorsReachTheCaller: (exists i int :: 0 <= i && i < len(ctx.Errors) && ctx.Errors[i] != nil) ==> result.1 != nil
+
+// ---- C07: syntax the model cannot represent is reported (kernel) -------------------------------------------------------
+// Every rule on the unsupported list appends exactly one error to the context (which parseCypher then returns,
+// see errorsReachTheCaller above). The rule names come from the generated parser's static data, whose indexing
+// is not under contract (nosafety).
+
+//@ func (s *BaseVisitor) newUnsupportedRuleError(c antlr.ParserRuleContext)
+//@   requires s != nil && s.ctx != nil && errorsNonNil(s.ctx) && c != nil
+//@   nosafety
+//@   ensures len(s.ctx.Errors) == old(len(s.ctx.Errors)) + 1 && errorsNonNil(s.ctx)
+//@ func (s *BaseVisitor) EnterOC_Profile(c *parser.OC_ProfileContext)
+//@   requires s != nil && s.ctx != nil && errorsNonNil(s.ctx) && c != nil
+//@   nosafety
+//@   ensures len(s.ctx.Errors) == old(len(s.ctx.Errors)) + 1 && errorsNonNil(s.ctx)
+//@ func (s *BaseVisitor) EnterOC_BulkImportQuery(c *parser.OC_BulkImportQueryContext)
+//@   requires s != nil && s.ctx != nil && errorsNonNil(s.ctx) && c != nil
+//@   nosafety
+//@   ensures len(s.ctx.Errors) == old(len(s.ctx.Errors)) + 1 && errorsNonNil(s.ctx)
+//@ func (s *BaseVisitor) EnterOC_PeriodicCommitHint(c *parser.OC_PeriodicCommitHintContext)
+//@   requires s != nil && s.ctx != nil && errorsNonNil(s.ctx) && c != nil
+//@   nosafety
+//@   ensures len(s.ctx.Errors) == old(len(s.ctx.Errors)) + 1 && errorsNonNil(s.ctx)
+//@ func (s *BaseVisitor) EnterOC_Union(c *parser.OC_UnionContext)
+//@   requires s != nil && s.ctx != nil && errorsNonNil(s.ctx) && c != nil
+//@   nosafety
+//@   ensures len(s.ctx.Errors) == old(len(s.ctx.Errors)) + 1 && errorsNonNil(s.ctx)
+//@ func (s *BaseVisitor) EnterOC_Command(c *parser.OC_CommandContext)
+//@   requires s != nil && s.ctx != nil && errorsNonNil(s.ctx) && c != nil
+//@   nosafety
+//@   ensures len(s.ctx.Errors) == old(len(s.ctx.Errors)) + 1 && errorsNonNil(s.ctx)
+//@ func (s *BaseVisitor) EnterOC_Foreach(c *parser.OC_ForeachContext)
+//@   requires s != nil && s.ctx != nil && errorsNonNil(s.ctx) && c != nil
+//@   nosafety
+//@   ensures len(s.ctx.Errors) == old(len(s.ctx.Errors)) + 1 && errorsNonNil(s.ctx)
+//@ func (s *BaseVisitor) EnterOC_Start(c *parser.OC_StartContext)
+//@   requires s != nil && s.ctx != nil && errorsNonNil(s.ctx) && c != nil
+//@   nosafety
+//@   ensures len(s.ctx.Errors) == old(len(s.ctx.Errors)) + 1 && errorsNonNil(s.ctx)
+//@ func (s *BaseVisitor) EnterOC_CaseExpression(c *parser.OC_CaseExpressionContext)
+//@   requires s != nil && s.ctx != nil && errorsNonNil(s.ctx) && c != nil
+//@   nosafety
+//@   ensures len(s.ctx.Errors) == old(len(s.ctx.Errors)) + 1 && errorsNonNil(s.ctx)
+//@ func (s *BaseVisitor) EnterOC_LegacyListExpression(c *parser.OC_LegacyListExpressionContext)
+//@   requires s != nil && s.ctx != nil && errorsNonNil(s.ctx) && c != nil
+//@   nosafety
+//@   ensures len(s.ctx.Errors) == old(len(s.ctx.Errors)) + 1 && errorsNonNil(s.ctx)
+//@ func (s *BaseVisitor) EnterOC_Reduce(c *parser.OC_ReduceContext)
+//@   requires s != nil && s.ctx != nil && errorsNonNil(s.ctx) && c != nil
+//@   nosafety
+//@   ensures len(s.ctx.Errors) == old(len(s.ctx.Errors)) + 1 && errorsNonNil(s.ctx)
+//@ func (s *BaseVisitor) EnterOC_ExistentialSubquery(c *parser.OC_ExistentialSubqueryContext)
+//@   requires s != nil && s.ctx != nil && errorsNonNil(s.ctx) && c != nil
+//@   nosafety
+//@   ensures len(s.ctx.Errors) == old(len(s.ctx.Errors)) + 1 && errorsNonNil(s.ctx)
+//@ func (s *BaseVisitor) EnterOC_LegacyParameter(c *parser.OC_LegacyParameterContext)
+//@   requires s != nil && s.ctx != nil && errorsNonNil(s.ctx) && c != nil
+//@   nosafety
+//@   ensures len(s.ctx.Errors) == old(len(s.ctx.Errors)) + 1 && errorsNonNil(s.ctx)
+//@ func (s *BaseVisitor) EnterOC_Explain(c *parser.OC_ExplainContext)
+//@   requires s != nil && s.ctx != nil && errorsNonNil(s.ctx) && c != nil
+//@   nosafety
+//@   ensures len(s.ctx.Errors) == old(len(s.ctx.Errors)) + 1 && errorsNonNil(s.ctx)
+//@ func (s *BaseVisitor) EnterOC_LoadCSV(c *parser.OC_LoadCSVContext)
+//@   requires s != nil && s.ctx != nil && errorsNonNil(s.ctx) && c != nil
+//@   nosafety
+//@   ensures len(s.ctx.Errors) == old(len(s.ctx.Errors)) + 1 && errorsNonNil(s.ctx)
